@@ -7,7 +7,7 @@
 (*         requested) or <<"err", class, line, is MPilot error>>            *)
 (*   wobs  <<>> or what came back after the real writer wrote the column   *)
 (*         and its reverse under the names "x,y", "out 1" and the real reader read "x,y":  *)
-(*         <<"ok", cells, header as written>>                              *)
+(*         <<"ok", cells, header as written, names as listed, every row has one cell per listed name>> *)
 (***************************************************************************)
 EXTENDS CsvIO, Json, IOUtils
 Traces == ndJsonDeserialize(IOEnv.TRACE_FILE)
@@ -30,7 +30,7 @@ JudgeWrite(t) ==
     IF t.wobs = <<>> THEN "ok"
     ELSE LET exp == Read(t.file, t.field, t.missing, t.dtype) IN
          IF t.wobs[1] # "ok" THEN "C17.RoundTrip"
-         ELSE IF t.wobs[3] # <<"x,y", "out 1">> THEN "C17.Header"
+         ELSE IF t.wobs[3] # t.wobs[4] \/ ~t.wobs[5] THEN "C17.Header"      \* the header is the listed names in the listed order (a result may be listed twice), one cell per name in every row
          ELSE IF Len(t.wobs[2]) # Len(exp[2]) THEN "C17.RoundTrip"
          ELSE IF \E r \in 1..Len(exp[2]) : t.wobs[2][r] # <<exp[2][r][1], FALSE>> THEN "C17.RoundTrip" ELSE "ok"
 Judge(t) == IF JudgeRead(t) # "ok" THEN JudgeRead(t) ELSE JudgeWrite(t)
